@@ -139,8 +139,16 @@ pub fn gen_irq_prog(rng: &mut Rng) -> IrqProg {
     a.label("log");
     let (mut image, labels) = a.finish();
     image.resize(image.len() + LOG_CAP as usize, 0);
-    let io = if rng.chance(1, 3) { gen::io_noise(rng) } else { vec![] };
-    IrqProg { image, labels, uses_trap, desc: format!("loops={} trap-critical-sections={} io-noise={:x?}", nloops, uses_trap, io), io }
+    let io = match rng.below(6) {
+        0 | 1 => gen::io_noise(rng),
+        2 => {
+            // every plain I/O register location at once: all ones or random
+            let ones = rng.chance(1, 2);
+            (0xfee000u32..=0xfee0ff).chain(0xffff20..=0xffffe9).filter(|a| !crate::refmodel::mem::is_special_io(*a) && !(0xfee020..=0xfee026).contains(a)).map(|a| (a, if ones { 0xff } else { rng.u8() })).collect()
+        }
+        _ => vec![],
+    };
+    IrqProg { image, labels, uses_trap, desc: format!("loops={} trap-critical-sections={} io-noise={} locations {:x?}", nloops, uses_trap, io.len(), &io[..io.len().min(3)]), io }
 }
 
 pub fn load_prog(cpu: &mut Cpu, p: &IrqProg, sp: u32) {
